@@ -534,6 +534,9 @@ class SubscriptionsManagerBase:
         except TimeoutError as ex:
             # this is an error related to the connection => log error and continue
             self._logger.error('could not send notification report error= {!r}: {}', ex, subscription)  # noqa: PLE1205, TRY400
+        except etree.XMLSyntaxError as ex:
+            # the answer of this subscriber is not xml => only this subscriber is affected, log error and continue
+            self._logger.error('invalid answer to notification report: {!r}:  subscr = {}', ex, subscription)  # noqa: PLE1205, TRY400
         except etree.DocumentInvalid as ex:
             # this is an error related to the document, it cannot be sent to any subscriber => re-raise
             self._logger.error('Invalid Document: {!r}\n{}', ex, etree.tostring(body_node))  # noqa: PLE1205, TRY400
